@@ -8,6 +8,7 @@ __all__ = [
 ]
 
 import sys
+import unittest
 
 from testtools.testresult import ExtendedToOriginalDecorator
 
@@ -108,7 +109,7 @@ class RunTest:
             if self._exceptions:
                 # One or more caught exceptions, now trigger the test's
                 # reporting method for just one.
-                e = self._exceptions.pop()
+                e = self._pop_exception_to_report()
                 for exc_class, handler in self.handlers:
                     if isinstance(e, exc_class):
                         handler(self.case, self.result, e)
@@ -119,6 +120,33 @@ class RunTest:
         finally:
             result.stopTest(self.case)
         return result
+
+    def _pop_exception_to_report(self):
+        """Remove and return the caught exception that decides the outcome.
+
+        Normally that is the last one caught. However an exception that no
+        handler claims (KeyboardInterrupt, SystemExit) must still be re-raised
+        once the test is done, and a skip or expected failure raised later
+        (by tearDown or a cleanup, say) must not mask an earlier failure or
+        error, so those take precedence, in that order.
+        """
+        from testtools.testcase import _ExpectedFailure
+
+        handled = tuple(exc_class for exc_class, handler in self.handlers)
+        benign = (
+            getattr(self.case, "skipException", unittest.SkipTest),
+            _ExpectedFailure,
+        )
+
+        def rank(e):
+            if not isinstance(e, handled):
+                return 2
+            return 0 if isinstance(e, benign) else 1
+
+        best = max(map(rank, self._exceptions))
+        for index in reversed(range(len(self._exceptions))):
+            if rank(self._exceptions[index]) == best:
+                return self._exceptions.pop(index)
 
     def _run_core(self):
         """Run the user supplied test code."""
